@@ -57,7 +57,8 @@ type Cfg struct {
 	PO          int    `json:"po_ms"`   // PongOnlyInterval
 	MPO         bool   `json:"mpo"`     // MissingPongOk
 	NoCloseFn   bool   `json:"noclosefn"`
-	LingerMs    int    `json:"linger_ms"` // a Source returns this long after it saw ctx.Done (promptly: a few ms)
+	LingerMs    int    `json:"linger_ms"`   // a Source returns this long after it saw ctx.Done (promptly: a few ms)
+	LingerGate  bool   `json:"linger_gate"` // ... or when the script releases it (src "release"); at the latest when the session ends
 }
 
 func (c Cfg) proto() string {
@@ -99,13 +100,14 @@ type Step struct {
 }
 
 type Scenario struct {
-	ID    string `json:"id"`
-	Mode  string `json:"mode"` // replay | random | hammer
-	Cfg   Cfg    `json:"cfg"`
-	Steps []Step `json:"steps"`
-	End   string `json:"end"`            // how the driver ends a still-open connection: abort | closef | term | cancel
-	Long  bool   `json:"long,omitempty"` // confirmation rerun: longer waits
-	Iters int    `json:"iters,omitempty"`
+	ID         string `json:"id"`
+	Mode       string `json:"mode"` // replay | random | hammer
+	Cfg        Cfg    `json:"cfg"`
+	Steps      []Step `json:"steps"`
+	End        string `json:"end"`            // how the driver ends a still-open connection: abort | closef | term | cancel
+	Long       bool   `json:"long,omitempty"` // confirmation rerun: longer waits
+	Iters      int    `json:"iters,omitempty"`
+	NoEpilogue bool   `json:"no_epilogue,omitempty"` // do not stop the still-running operations before the connection is ended
 }
 
 type Result struct {
@@ -136,6 +138,7 @@ type instState struct {
 	cp           int
 	startedAtLog int
 	exitSeq      int
+	csn          bool // the Source saw ctx.Done
 }
 
 type session struct {
@@ -161,6 +164,10 @@ type session struct {
 	wmu       sync.Mutex // client-side writes
 	srvCancel context.CancelFunc
 	cancelled bool
+	gate      *stallGate
+	lingerEnd chan struct{}   // closed when the session ends: every lingering Source returns
+	stalledOn bool            // the script has shut the gate
+	parkWant  int             // goroutines the schedule expects to be parked on mu behind the stalled writer
 	before    map[string]bool // transport goroutines that existed before this session
 	baseCtx   context.Context
 	unit      time.Duration // base wait
@@ -207,6 +214,10 @@ func (s *session) apply(ev *Event) {
 	case "SEmit":
 		if st := s.inst[ev.I]; st != nil {
 			st.em++
+		}
+	case "SCancel":
+		if st := s.inst[ev.I]; st != nil {
+			st.csn = true
 		}
 	case "SExit":
 		if st := s.inst[ev.I]; st != nil {
@@ -288,7 +299,13 @@ func (s *session) executableSchema() graphql.ExecutableSchema {
 				select {
 				case <-ctx.Done():
 					s.logEv(Event{E: "SCancel", I: inst}, nil)
-					if s.sc.Cfg.LingerMs > 0 { // winding down: still prompt, but not instantaneous
+					if s.sc.Cfg.LingerGate { // winding down until the script says so (still promptly: the session's end at the latest)
+						select {
+						case <-src.cmds:
+						case <-s.lingerEnd:
+						case <-time.After(20 * time.Second):
+						}
+					} else if s.sc.Cfg.LingerMs > 0 { // winding down: still prompt, but not instantaneous
 						time.Sleep(ms(s.sc.Cfg.LingerMs))
 					}
 					s.logEv(Event{E: "SExit", I: inst, M: "cancel"}, nil)
@@ -326,6 +343,83 @@ func (s *session) executableSchema() graphql.ExecutableSchema {
 }
 
 type scriptedPanic string
+
+// stallGate is the scheduler gate on the server's side of the socket: while it is shut, Write on the
+// server's net.Conn does not return (a slow peer) - the goroutine that writes a frame then sits in Send
+// HOLDING wsConnection.mu.  hits counts the writes that ran into the shut gate.
+type stallGate struct {
+	mu   sync.Mutex
+	ch   chan struct{}
+	hits int
+	poke func()
+}
+
+func (g *stallGate) shut() {
+	g.mu.Lock()
+	if g.ch == nil {
+		g.ch = make(chan struct{})
+	}
+	g.mu.Unlock()
+}
+
+func (g *stallGate) open() {
+	g.mu.Lock()
+	if g.ch != nil {
+		close(g.ch)
+		g.ch = nil
+	}
+	g.mu.Unlock()
+}
+
+func (g *stallGate) nhits() int { g.mu.Lock(); defer g.mu.Unlock(); return g.hits }
+
+type gatedConn struct {
+	net.Conn
+	g *stallGate
+}
+
+func (c gatedConn) Write(p []byte) (int, error) {
+	c.g.mu.Lock()
+	ch := c.g.ch
+	if ch != nil {
+		c.g.hits++
+	}
+	c.g.mu.Unlock()
+	if ch != nil {
+		c.g.poke()
+		<-ch
+	}
+	return c.Conn.Write(p)
+}
+
+type gatedListener struct {
+	net.Listener
+	g *stallGate
+}
+
+func (l gatedListener) Accept() (net.Conn, error) {
+	c, err := l.Listener.Accept()
+	if err != nil {
+		return nil, err
+	}
+	return gatedConn{Conn: c, g: l.g}, nil
+}
+
+var reParked = regexp.MustCompile(`(?s)sync\.\(\*Mutex\)\.Lock.*transport\.\(\*wsConnection\)\.`)
+
+// parkedOnMu: goroutines of the transport that are blocked in wsConnection.mu.Lock (the "is parked at
+// the gate" assertion of a replayed schedule: a closer / writer that arrived while mu is held).
+func parkedOnMu() int {
+	buf := make([]byte, 1<<20)
+	n := runtime.Stack(buf, true)
+	cnt := 0
+	for _, g := range strings.Split(string(buf[:n]), "\n\n") {
+		if reParked.MatchString(g) {
+			cnt++
+		}
+	}
+	return cnt
+}
 
 func ms(n int) time.Duration { return time.Duration(n) * time.Millisecond }
 
@@ -406,6 +500,8 @@ func (s *session) startServer() {
 		return &gqlerror.Error{Message: "unexpected panic"}
 	})
 	s.ts = httptest.NewUnstartedServer(h)
+	s.gate = &stallGate{poke: s.poke}
+	s.ts.Listener = gatedListener{Listener: s.ts.Listener, g: s.gate}
 	s.ts.Config.ErrorLog = log.New(io.Discard, "", 0)
 	s.ts.Config.BaseContext = func(net.Listener) context.Context { return base }
 	s.ts.Start()
@@ -730,6 +826,9 @@ func (s *session) srcCmd(inst, cmd string, wait time.Duration) bool {
 		s.mu.Lock()
 		src = s.sources[inst]
 		c := s.cend
+		if cmd == "release" && src != nil && !s.inst[inst].csn && s.inst[inst].src == "run" {
+			src = nil // "release" is for a Source that has seen its cancellation and lingers
+		}
 		s.mu.Unlock()
 		return src != nil || c
 	})
@@ -837,7 +936,7 @@ func transportGoroutines(ignore map[string]bool) (int, string, map[string]bool) 
 func runScenario(sc *Scenario) *Result {
 	t0 := time.Now()
 	s := &session{sc: sc, inst: map[string]*instState{}, sources: map[string]*source{}, cendCh: make(chan struct{}),
-		changed: make(chan struct{}, 1), unit: time.Second, initFn: "none"}
+		changed: make(chan struct{}, 1), unit: time.Second, initFn: "none", lingerEnd: make(chan struct{})}
 	if sc.Long { // confirmation rerun of a whole scenario: 3x on top (first look 6 s, second look 60 s)
 		s.unit = 3 * time.Second
 	}
@@ -873,8 +972,36 @@ func runScenario(sc *Scenario) *Result {
 			s.cancelServer()
 		case "sleep":
 			time.Sleep(ms(st.Ms))
+		case "stall":
+			s.gate.shut()
+			s.stalledOn = true
+		case "unstall":
+			s.gate.open()
+			s.stalledOn = false
 		case "hammer":
 			s.hammer(st, sc.Iters)
+		}
+		if s.stalledOn && st.Op != "stall" {
+			// The schedule of a stalled socket is imposed through gates, not sleeps: a frame the step
+			// causes must have run into the shut gate (its writer now holds mu), a closer the step
+			// sets off (terminate, duplicate id, ..., server-side cancel) must be parked on mu behind it.
+			// (Scheduling aid with a bounded wait; the verdict comes from the recorded events.)
+			switch {
+			case st.Op == "src" && st.M == "emit":
+				h0 := 1
+				if !s.waitFor(5*s.unit, func() bool { return s.gate.nhits() >= h0 }) {
+					s.note("stalled socket: the data frame did not reach the socket")
+				}
+			case st.Op == "cancel", st.Op == "send" && st.M != "stop" && st.M != "ping" && st.M != "pong":
+				if s.gate.nhits() > 0 {
+					s.parkWant++
+					want := s.parkWant
+					if !s.waitFor(3*s.unit, func() bool { return parkedOnMu() >= want }) {
+						s.parkWant = parkedOnMu()
+						s.note(fmt.Sprintf("stalled socket: step %d did not park a goroutine on mu (%d parked)", si, s.parkWant))
+					}
+				}
+			}
 		}
 		if st.Expect != nil {
 			why := ""
@@ -912,6 +1039,9 @@ func runScenario(sc *Scenario) *Result {
 // Source sees ctx.Done or ends by itself.  Absence is reported only after the confirmation wait, and
 // only while the connection is open.  (The completion that must follow is checked by finish.)
 func (s *session) checkStop(id string, gen, confirm time.Duration) {
+	if s.stalledOn {
+		return // a worker may sit in a stalled write: its Source is not listening; the epilogue stops again once the gate is open
+	}
 	s.mu.Lock()
 	var obliged []string
 	stopSeen := false
@@ -936,7 +1066,7 @@ func (s *session) checkStop(id string, gen, confirm time.Duration) {
 		defer s.mu.Unlock()
 		var out []string
 		for _, i := range obliged {
-			if s.inst[i].src != "exited" {
+			if st := s.inst[i]; st.src != "exited" && !st.csn {
 				out = append(out, i)
 			}
 		}
@@ -959,6 +1089,42 @@ func (s *session) checkStop(id string, gen, confirm time.Duration) {
 // finish: drain, end the connection, and take the final observations.
 func (s *session) finish(gen, confirm time.Duration, res *Result) {
 	ended := func() bool { s.mu.Lock(); defer s.mu.Unlock(); return s.cend }
+	// 0. the gates of the schedule are opened: a stalled socket flows again, lingering Sources return
+	s.gate.open()
+	s.stalledOn = false
+	close(s.lingerEnd)
+	lingering := func() bool {
+		s.mu.Lock()
+		defer s.mu.Unlock()
+		for _, st := range s.inst {
+			if st.src == "run" && st.csn {
+				return true
+			}
+		}
+		return false
+	}
+	s.waitFor(gen, func() bool { return !lingering() })
+	// 0b. epilogue (StopCancels once more): every operation that is still executing while the
+	//     connection is open is stopped by its id - each must see its context cancelled
+	if !s.sc.NoEpilogue && !ended() {
+		s.mu.Lock()
+		var ids []string
+		seen := map[string]bool{}
+		for _, i := range s.order {
+			if st := s.inst[i]; st.src == "run" && !st.csn && !seen[st.id] {
+				seen[st.id] = true
+				ids = append(ids, st.id)
+			}
+		}
+		s.mu.Unlock()
+		for _, id := range ids {
+			if ended() {
+				break
+			}
+			s.send(Step{M: "stop", ID: id})
+			s.checkStop(id, gen, confirm)
+		}
+	}
 	// 1. every operation whose Source ended by itself gets its terminating frame
 	//    (only decidable while the connection stays open)
 	// (conservative because a completion cannot be attributed with certainty when an id was started
